@@ -6,9 +6,11 @@ import (
 	"math/rand"
 	"os"
 	"os/exec"
+	"path/filepath"
 	"sort"
 	"strings"
 	"sync"
+	"time"
 
 	"verif/internal/eng"
 	"verif/internal/ev"
@@ -117,6 +119,17 @@ func c19Script(r *rand.Rand) (string, map[string]interface{}) {
 		if r.Intn(2) == 0 {
 			m["shared1"], m["shared2"] = sub, sub
 		}
+	}
+	if r.Intn(4) == 0 {
+		// host keys that become the same script key (times within one second): the hash
+		// the script sees is still one fixed hash
+		base := time.Unix(int64(1000+r.Intn(5)), 0)
+		tm := map[time.Time]string{}
+		for i := 0; i < 2+r.Intn(6); i++ {
+			tm[base.Add(time.Duration(r.Intn(3000))*time.Millisecond)] = fmt.Sprintf("v%d", i)
+		}
+		m["times"] = tm
+		m["bytimes"] = map[time.Time][]interface{}{base: {1}, base.Add(time.Nanosecond): {2}, base.Add(2 * time.Nanosecond): {3}}
 	}
 	return b.String(), map[string]interface{}{"M": m, "I1": r.Intn(100)}
 }
@@ -381,7 +394,90 @@ func c19RepeatedRuns(c *ev.Ctx) {
 	}
 }
 
+// c19AfterFailure: runs that fail in mid-expression, in mid-call, in a loop - alternating
+// with runs that succeed - on one evaluator: every succeeding run gives the same transcript,
+// every failing run too, and both equal what a fresh evaluator gives.
+func c19AfterFailure(c *ev.Ctx) {
+	scripts := []string{
+		`if (Bad) { x = 7 + (1 / Zero); } y = [1, 2]; return len(y) + v(1);`,
+		`if (Bad) { x = [4, "five", 1 / Zero]; } return v({"a": 1})["a"];`,
+		`function f(a) { return [a, a + (1 / Zero)]; } if (Bad) { r = 3 * f(2)[1]; } return v(9) - 4;`,
+		`foreach e in [1, 2] { if (Bad) { s = "x" + string(e) + string(1 % Zero); } } return v("end");`,
+		`if (Bad) { t(1, 2, panic("p")); } return [v(1), v(2)];`,
+	}
+	for si, script := range scripts {
+		for _, noOpt := range []bool{false, true} {
+			id := fmt.Sprintf("after-failure/%d/%v", si, noOpt)
+			if !c.Want(id) {
+				continue
+			}
+			used, err := eng.New(script, eng.Options{NoOptimize: noOpt})
+			if err != nil {
+				continue
+			}
+			want := map[bool]string{}
+			for _, bad := range []bool{false, true} {
+				fresh, _ := eng.New(script, eng.Options{NoOptimize: noOpt})
+				o := fresh.Exec(map[string]interface{}{"Bad": bad, "Zero": 0})
+				want[bad] = fmt.Sprintf("%s err=%q trace=%s", o.Desc(), errText(o.Err), strings.Join(o.Trace, "|"))
+			}
+			for step, bad := range []bool{false, true, false, true, true, false, false} {
+				o := used.Exec(map[string]interface{}{"Bad": bad, "Zero": 0})
+				got := fmt.Sprintf("%s err=%q trace=%s", o.Desc(), errText(o.Err), strings.Join(o.Trace, "|"))
+				c.Case(fmt.Sprint(id, step), true)
+				if got != want[bad] {
+					c.Violation(id, "a run after a failed run differs from a fresh evaluator", map[string]interface{}{"summary": fmt.Sprintf("%s (noopt=%v), run %d (Bad=%v) on a used evaluator gives %s, a fresh evaluator gives %s", script, noOpt, step+1, bad, got, want[bad]), "script": script})
+					break
+				}
+			}
+		}
+	}
+}
+
+// c19DumpRepeatable: what the command-line driver shows of the compiled program
+// (`evalfilter bytecode`, i.e. Eval.Dump) is the same text in every process.
+func c19DumpRepeatable(c *ev.Ctx) {
+	if !c.Want("cli-bytecode") {
+		return
+	}
+	work := filepath.Join(ev.Root, "work", fmt.Sprintf("c19cli-%d", os.Getpid()))
+	os.MkdirAll(work, 0o755)
+	defer os.RemoveAll(work)
+	bin := filepath.Join(work, "evalfilter-cli")
+	build := exec.Command("go", "build", "-o", bin, "./cmd/evalfilter")
+	build.Dir = repoDir()
+	if out, err := build.CombinedOutput(); err != nil {
+		c.Inconclusive("cannot build the command-line driver from " + repoDir() + ": " + clip(string(out), 300))
+		return
+	}
+	for si, script := range []string{
+		`function alpha(a) { return a + 1; } function beta(b) { return b * 2; } function gamma(c1) { return alpha(beta(c1)); } function delta() { return {"z": 1, "a": 2, "m": [3]}; } function eps(e) { if (e) { return 70000; } return 1.5; } return gamma(2) + eps(0);`,
+		`h = {"b": 1, "a": 2, 3: "c", 1.5: /x/}; function one() { return 1; } function two() { return 2; } function three() { return 3; } function four() { return 4; } return [one(), two(), three(), four(), h];`,
+	} {
+		sf := filepath.Join(work, fmt.Sprintf("s%d.script", si))
+		os.WriteFile(sf, []byte(script), 0o644)
+		for _, args := range [][]string{{"bytecode", sf}, {"bytecode", "-no-optimizer", sf}, {"parse", sf}} {
+			seen := map[string]int{}
+			for k := 0; k < 12; k++ {
+				out, _, _ := runCLI(bin, args...)
+				seen[out]++
+			}
+			c.Case(fmt.Sprint("cli-bytecode", si, args[:len(args)-1]), true)
+			if len(seen) > 1 {
+				var texts []string
+				for t1 := range seen {
+					texts = append(texts, t1)
+				}
+				sort.Strings(texts)
+				c.Violation("cli-bytecode", "the dump of one script differs between processes", map[string]interface{}{"summary": fmt.Sprintf("evalfilter %s on one script printed %d different texts in 12 invocations; first difference: %s", strings.Join(args[:len(args)-1], " "), len(seen), diffLine(texts[0], texts[1])), "script": script})
+			}
+		}
+	}
+}
+
 func c19Fixed(c *ev.Ctx) {
+	c19DumpRepeatable(c)
+	c19AfterFailure(c)
 	c19RepeatedRuns(c)
 	c19PrefixKeys(c)
 	// known finding: a format verb that prints an address
